@@ -75,6 +75,15 @@ func (r *ReceivedMessageReader[C]) loop(loopDone chan struct{}, readingMessages 
 			readingMessages.Store(true)
 			r.private.mutex.Unlock()
 			verifYield(r, "relocked")
+			// If the loop was replaced while the message was being processed, loopDone is already closed
+			// (TryToReplaceLoop has finished, see the mutex above). The replacement loop owns the queue now:
+			// return before entering the select again, because select would choose at random between the
+			// closed loopDone and a readable queue and two loops would consume the queue concurrently.
+			select {
+			case <-loopDone:
+				return
+			default:
+			}
 		// if the client is closed, the loop will be closed
 		case <-r.cc.Done():
 			verifYield(r, "exit")
